@@ -113,6 +113,43 @@ theorem run_crop_eq_whole_of_B (K K' : RunCfg) (V : CrossCheck.Variant) (CP : Cr
     r c hr hcl
     (cone_of_B _ _ (docCone_bounds K K' CP x hdoc) _ _ _ _ _ _ r c hcone)
 
+/-! ### the extended run (`extRunR`: any tail of refinements and filters, both cross-checks, filling) restricted to the
+    chain of `fullRunR` is `fullRunR` -/
+
+/-- the tail "optional refinement, optional median" of the extended run gives the maps of `afterFilterR` -/
+theorem afterTail_tailOf (K : RunCfg) (x : MC.Input) (R : Nat → Nat → List Val) :
+    afterTail K x R (tailOf K) = afterFilterR K x R := by
+  unfold afterTail tailOf afterFilterR afterRefineR
+  cases hr : K.doRefine <;> cases hm : K.doMedian
+  · simp [afterTailFrom]
+  · simp [afterTailFrom, tailStep]
+  · simp only [if_true, Bool.false_eq_true, if_false, List.append_nil, afterTailFrom, tailStep, refineGridR]
+    cases Refinement.loopRefinement K.refine _ <;> simp [afterTailFrom]
+  · simp only [if_true, List.cons_append, List.nil_append, afterTailFrom, tailStep, refineGridR]
+    cases Refinement.loopRefinement K.refine _ <;> simp [afterTailFrom, tailStep]
+
+/-- **the left flag words of the extended run without filling, on the chain of `fullRunR`, are those of `fullRunR`**
+    (the theorems `run_crop_eq_whole`, `run_flip` therefore speak about the extended run the driver executes) -/
+theorem extRunR_left_flag (K K' : RunCfg) (V : CrossCheck.Variant) (CP CP' : CrossCheck.Params) (v : Interp.Variant)
+    (off : Nat) (x : MC.Input) (R R' : Nat → Nat → List Val) (l r : Interp.DMap)
+    (out : Nat → Nat → CrossCheck.PixOut)
+    (he : extRunR K K' (tailOf K) (tailOf K') V CP CP' ⟨none, v, off⟩ x R R' = some (l, r))
+    (hf : fullRunR K K' V CP x R R' = some out) (i j : Nat) : l.flag i j = (out i j).flag := by
+  unfold extRunR at he
+  unfold fullRunR at hf
+  rw [afterTail_tailOf, afterTail_tailOf] at he
+  cases hA : afterFilterR K x R with
+  | none => rw [hA] at hf; cases hf
+  | some A =>
+    cases hB : afterFilterR K' (swapInput x) R' with
+    | none => rw [hA, hB] at hf; cases hf
+    | some B =>
+      rw [hA, hB] at he hf
+      simp only [Option.some.injEq, Prod.mk.injEq] at he hf
+      obtain ⟨hl, _⟩ := he
+      subst hl hf
+      rfl
+
 /-! ### Non-vacuity: the pair of `RunExample` (3 × 9 sad pair, its 3 × 8 crop starting at column 1) satisfies the Bool
     hypotheses at crop pixel (1, 4) -/
 
